@@ -4,9 +4,9 @@ from fractions import Fraction
 from harness.lib import consumer_run
 
 MONITORS = {
-    "C02": ["c02-increasing", "c02-no-overlap", "c02-single-fetch", "c02-faithful"],
-    "C03": ["c03-commit-le-processed", "c03-one-in-flight", "c03-committed-acked", "c03-resume", "c03-failure-stops"],
-    "C13": ["c13-start-once", "c13-quiescent", "c13-shutdown", "c13-no-crash"],
+    "C02": ["c02-increasing", "c02-no-overlap", "c02-single-fetch", "c02-faithful", "c02-prompt"],
+    "C03": ["c03-commit-le-processed", "c03-one-in-flight", "c03-committed-acked", "c03-resume", "c03-failure-stops", "c03-commit-reports"],
+    "C13": ["c13-start-once", "c13-quiescent", "c13-shutdown", "c13-no-crash", "c02-prompt", "c03-commit-reports"],
     "C14": ["c14-delays", "c14-reset", "c14-growth", "c14-never-skips", "c14-attempts"],
 }
 ALL_MONITORS = [m for p in sorted(MONITORS) for m in MONITORS[p]]
@@ -120,6 +120,10 @@ def trace_lines(sc, impl):
             c = canon_impl(o, cfg)
             if c == "crash":
                 c = "crash impl"
+            w = c.split()
+            if w[0] == "setTimer":
+                # the delay exactly as the implementation computed it (a binary float)
+                c = "setTimer %s %s" % (w[1], Fraction(float(w[2])))
             out.append("tr ob " + c)
         if any(o.startswith("crash") for o in obs):
             break
